@@ -91,6 +91,16 @@ def cases(tier, seed):
 
 
 CORPUS = [
+    {"kind": "hist", "src": "def f(c: Parameter[Qint[2]], a: Qint[2]) -> Qint[2]:\n    return g(a) + c\n", "args": [["c", "Qint2"], ["a", "Qint2"]], "ret": "Qint2", "params": [0],
+     "defs_src": "def g(x: Qint[2]) -> Qint[2]:\n    return x + 1\n", "defs_name": "g",
+     "history": [["bind", [1]], ["bind", [2]], ["bind", [1]], ["bad_name"], ["bind", [3]]], "feat": []},
+    {"kind": "hist", "src": "def f(a: bool, c: Parameter[bool], b: bool) -> bool:\n    return g(a, b) ^ c\n", "args": [["a", "bool"], ["c", "bool"], ["b", "bool"]], "ret": "bool", "params": [1],
+     "defs_src": "def g(x: bool, y: bool) -> bool:\n    return x and not y\n", "defs_name": "g",
+     "history": [["bind", [True]], ["bind", [False]], ["bind", [True]]], "feat": []},
+    {"kind": "hist", "src": "def f(c: Parameter[Qlist[bool, 3]], a: bool) -> bool:\n    return all(c) and a\n", "args": [["c", ["bool", "bool", "bool"]], ["a", "bool"]], "ret": "bool", "params": [0],
+     "history": [["bind", [(True, True, True)]], ["bind", [(True, False, True)]], ["bind", [(True, True, True)]]], "feat": []},
+    {"kind": "hist", "src": "def f(c: Parameter[Qlist[Qint[2], 2]], a: Qint[2]) -> Qint[2]:\n    return sum(c) + a\n", "args": [["c", ["Qint2", "Qint2"]], ["a", "Qint2"]], "ret": "Qint2", "params": [0],
+     "history": [["bind", [(1, 2)]], ["bind", [(0, 0)]], ["bind", [(3, 1)]], ["bind", [(1, 2)]]], "feat": []},
     {"kind": "hist", "src": "def f(c: Parameter[Qint[2]], a: bool) -> Qint[2]:\n    return c + 1 if a else c\n", "args": [["c", "Qint2"], ["a", "bool"]], "ret": "Qint2", "params": [0],
      "history": [["bind", [0]], ["bind", [1]], ["bad_name"], ["bind", [2]], ["bind", [3]], ["bind", [1]]], "feat": []},
     {"kind": "hist", "src": "def f(a: Qint[2], c: Parameter[Tuple[bool, Qint[2]]], d: Parameter[bool]) -> Qint[2]:\n    return (c[1] + a) if (c[0] ^ d) else a\n",
@@ -125,8 +135,13 @@ def check(case):
     src, args, ret, pidx = case["src"], case["args"], case["ret"], case["params"]
     key = src
     cnt, fails = {}, []
+    defs, extra = [], {}
+    if case.get("defs_src"):
+        defs = [qlassf(case["defs_src"], to_compile=False)]
+        extra = {case["defs_name"]: refsem.make_ref(case["defs_src"])}
+        cnt["with_defs"] = 1
     try:
-        u = qlassf(src, to_compile=False)
+        u = qlassf(src, to_compile=False, defs=defs)
     except Exception as e:
         return {"status": "rejected", "key": key, "counters": {f"rejected:{type(e).__name__}": 1}}
     if not hasattr(u, "bind") or not hasattr(u, "parameters"):
@@ -165,6 +180,12 @@ def check(case):
                 qf = u.bind(**kw)
             except Exception as e:
                 cnt[f"bind_rejected:{type(e).__name__}"] = cnt.get(f"bind_rejected:{type(e).__name__}", 0) + 1
+                # a bind that succeeds on a fresh object must not fail because of earlier binds
+                try:
+                    qlassf(src, to_compile=False, defs=[qlassf(case["defs_src"], to_compile=False)] if case.get("defs_src") else []).bind(**copy.deepcopy(kw))
+                    fails.append({"kind": "history_dependent_failure", "msg": f"bind({kw}) raised {type(e).__name__}: {e} after {ok_binds} earlier binds but succeeds on a fresh unbound object; {src}", "pred": None})
+                except Exception:
+                    pass
                 continue
             cnt["binds_checked"] = cnt.get("binds_checked", 0) + 1
             ok_binds += 1
@@ -173,7 +194,7 @@ def check(case):
             ptypes = {args[i][0]: args[i][1] for i in pidx}
             pv = dict(zip(pnames, vals))
             try:
-                rt = progsem.ref_table(src.replace("Parameter[", "Tuple["), rest, ret, sp, kwargs=lambda: {k: lift_literal(ptypes[k], v) for k, v in pv.items()})
+                rt = progsem.ref_table(src.replace("Parameter[", "Tuple["), rest, ret, sp, extra=extra, fname="f", kwargs=lambda: {k: lift_literal(ptypes[k], v) for k, v in pv.items()})
             except (refsem.Unsupported, SyntaxError):
                 cnt["ref_unsupported"] = cnt.get("ref_unsupported", 0) + 1
                 rt = None
@@ -199,7 +220,7 @@ def check(case):
                 ast0, par0 = ast.dump(u.fun_ast), par1
             # same bind on a fresh unbound object
             try:
-                u2 = qlassf(src, to_compile=False)
+                u2 = qlassf(src, to_compile=False, defs=defs)
                 qf2 = u2.bind(**copy.deepcopy(kw))
                 cnt["fresh_comparisons"] = cnt.get("fresh_comparisons", 0) + 1
                 if fp(qf2) != fp(qf):
